@@ -241,6 +241,116 @@ func lookupOrder(c *Ctx, r *Report) {
 	r.Check(firstOK, "R02e", name, "own tree first", c.Pos(look.Pos()), "the first config consulted is the owning one", "the first lookup is not made in the configuration tree the setting lives in")
 	r.Check(envOK, "R02e", name, "Env last-to-first", c.Pos(look.Pos()), "env[len(env)-1], then env = env[:len(env)-1]", "Env configurations are not consulted most-recently-added first ("+envDesc+")")
 
+	// a configuration that does not hold the name hands over to the next one: the lookup loop is left only with the
+	// value found, when the environments are used up, or when there is no tree at all
+	if lp := loopOf(rr, look.Block()); lp != nil {
+		var found, lookErr ssa.Value
+		if refs := look.Referrers(); refs != nil {
+			for _, ref := range *refs {
+				if ex, ok := ref.(*ssa.Extract); ok {
+					if ex.Index == 0 {
+						found = ex
+					} else {
+						lookErr = ex
+					}
+				}
+			}
+		}
+		derives := func(v, from ssa.Value) bool {
+			if from == nil {
+				return false
+			}
+			if v == from {
+				return true
+			}
+			for _, s := range Sources(v) {
+				if s == from {
+					return true
+				}
+			}
+			return false
+		}
+		isCount := func(v ssa.Value) bool {
+			for _, s := range append(Sources(v), v) {
+				if call, ok := s.(*ssa.Call); ok && BuiltinName(call) == "len" {
+					return true
+				}
+				if b, ok := s.(*ssa.BinOp); ok {
+					for _, o := range []ssa.Value{b.X, b.Y} {
+						for _, s2 := range append(Sources(o), o) {
+							if call, ok := s2.(*ssa.Call); ok && BuiltinName(call) == "len" {
+								return true
+							}
+						}
+					}
+				}
+			}
+			return false
+		}
+		n := 0
+		hdr := loopHeader(lp)
+		for _, rb := range rr.Blocks {
+			// the ways out: every edge into a returning block behind the loop header
+			if _, isRet := lastInstr(rb).(*ssa.Return); !isRet || lp[rb] || hdr == nil || !hdr.Dominates(rb) {
+				continue
+			}
+			for _, b := range rb.Preds {
+				ifi, _ := lastInstr(b).(*ssa.If)
+				n++
+				conds := DomConds(b)
+				if ifi != nil {
+					conds = append(append([]Cond{}, conds...), Cond{V: ifi.Cond, Truth: b.Succs[0] == rb, If: ifi})
+				}
+				kind, why := "", ""
+				for _, cd := range ExpandConds(conds) {
+					bo, ok := cd.V.(*ssa.BinOp)
+					if !ok || cd.If != nil && !hdr.Dominates(cd.If.Block()) {
+						continue
+					}
+					isNil := IsNilConst(bo.Y) || IsNilConst(bo.X)
+					other := bo.X
+					if IsNilConst(bo.X) {
+						other = bo.Y
+					}
+					eq := bo.Op == token.EQL && cd.Truth || bo.Op == token.NEQ && !cd.Truth
+					ne := bo.Op == token.NEQ && cd.Truth || bo.Op == token.EQL && !cd.Truth
+					switch {
+					case isNil && ne && derives(other, found):
+						kind = "found"
+					case isNil && eq && IsCallTo2(other, cfgRoot):
+						if kind == "" {
+							kind = "no tree"
+						}
+					case !isNil && (isCount(bo.X) || isCount(bo.Y)):
+						if kind == "" {
+							kind = "exhausted"
+						}
+					case isNil && eq && derives(other, found):
+						why = "nothing was found (the value is nil)"
+					case isNil && ne && derives(other, lookErr):
+						if why == "" {
+							why = "the lookup failed (the path does not exist)"
+						}
+					}
+				}
+				pos := c.Pos(lastPos(b))
+				if kind != "" {
+					r.OK("R02e", name, "nothing found goes on to the next environment", pos, "lookup ends: "+kind)
+					continue
+				}
+				if why == "" {
+					why = "of a condition that is neither the value found, nor the environments used up"
+				}
+				r.Bad("R02e", name, "nothing found goes on to the next environment", pos, "the lookup ends because "+why+" while Env configurations remain: a name that the owning tree does not hold is never looked up in the environments (it goes to the resolvers, or fails) although the property's order is tree, then Env, then resolvers")
+			}
+		}
+		if n == 0 {
+			r.add("R02e", name, "nothing found goes on to the next environment", c.Pos(look.Pos()), Undecided, true, "the lookup loop has no exit")
+		}
+	} else {
+		r.add("R02e", name, "nothing found goes on to the next environment", c.Pos(look.Pos()), Undecided, true, "Path.GetValue is not called in a loop over the environments")
+	}
+
 	re := c.Method("", "reference", "resolveEnv")
 	// index of resolvers: phi starting at len-1 with step -1
 	ok := false
@@ -346,4 +456,10 @@ func isLenOf(v, slice ssa.Value) bool {
 		return false
 	}
 	return call.Call.Args[0] == slice || SameValue(call.Call.Args[0], slice)
+}
+
+// IsCallTo2: v is a call of f.
+func IsCallTo2(v ssa.Value, f *ssa.Function) bool {
+	call, ok := v.(*ssa.Call)
+	return ok && IsCallTo(call, f)
 }
